@@ -3,75 +3,102 @@ Import ListNotations.
 Require Import Regex Tok TokTiles Engine.
 Open Scope N_scope.
 
-(* C01, engine half: the tree keeps the text of every token.  For all tables, both modes, every start
-   rule and every token list whose INDENT/DEDENT tokens carry no text:
-       parse ... toks = POk t  ->  tcode t = emit toks
-   (tcode = NodeOrLeaf.get_code).  Error recovery re-homes text (error nodes, error leaves) but never
-   drops it; convert_node('suite') drops only children without text (guard PGuard in Engine.v). *)
+(* C01 / C03, engine half: the tree keeps every text-carrying token, in order, with its value, prefix and position.
+   Stated for an arbitrary per-leaf measure  g value prefix line column : list X  that is empty on leaves without
+   text; `meas t` concatenates it over the leaves of t in order, `mtoks toks` over the tokens.  For all tables, both
+   modes, every start rule and every token list whose INDENT/DEDENT tokens carry no text:
+       parse ... toks = POk t  ->  meas t = mtoks toks.
+   Instances: g = prefix ++ value gives get_code (C01: tcode t = emit toks); g = [(value, prefix, line, column)] on
+   text-carrying leaves gives "the text-carrying leaves of the tree are exactly the text-carrying tokens" (C03).
+   Error recovery re-homes leaves (error nodes, error leaves) but never drops or reorders them;
+   convert_node('suite') drops only children without text (guard PGuard in Engine.v). *)
 
-Definition tcodes (l : list tree) : str := concat (map tcode l).
-Lemma tcode_node k cs : tcode (Node k cs) = tcodes cs.
-Proof. unfold tcodes. simpl. induction cs as [|c r IH]; simpl; [reflexivity|]. rewrite IH. reflexivity. Qed.
-Lemma tcodes_app a b : tcodes (a ++ b) = tcodes a ++ tcodes b.
-Proof. unfold tcodes. rewrite map_app, concat_app. reflexivity. Qed.
-Lemma tcodes_one x : tcodes [x] = tcode x.
-Proof. unfold tcodes. simpl. apply app_nil_r. Qed.
-Lemma tcodes_cons x l : tcodes (x :: l) = tcode x ++ tcodes l.
+Section Meas.
+Variable XT : Type.
+Variable g : str -> str -> N -> N -> list XT.
+Hypothesis g_nil : forall v p l c, p ++ v = [] -> g v p l c = [].
+
+Fixpoint meas (t : tree) : list XT :=
+  match t with
+  | Leaf _ v p l c => g v p l c
+  | Node _ cs => (fix go (l : list tree) : list XT := match l with [] => [] | c :: r => meas c ++ go r end) cs
+  end.
+Definition mtok (t : Token) : list XT := g (ts t) (tpre t) (tline t) (tcol t).
+Definition mtoks (l : list Token) : list XT := concat (map mtok l).
+Lemma mtoks_nil : mtoks [] = [].
 Proof. reflexivity. Qed.
 
-Section Keeps.
+Definition meass (l : list tree) : list XT := concat (map meas l).
+Lemma meas_node k cs : meas (Node k cs) = meass cs.
+Proof. unfold meass. simpl. induction cs as [|c r IH]; simpl; [reflexivity|]. rewrite IH. reflexivity. Qed.
+Lemma meass_app a b : meass (a ++ b) = meass a ++ meass b.
+Proof. unfold meass. rewrite map_app, concat_app. reflexivity. Qed.
+Lemma meass_one x : meass [x] = meas x.
+Proof. unfold meass. simpl. apply app_nil_r. Qed.
+Lemma meass_cons x l : meass (x :: l) = meas x ++ meass l.
+Proof. reflexivity. Qed.
+
+(* a subtree without text measures nothing *)
+Lemma tcode_nil_meas : forall t, tcode t = [] -> meas t = [].
+Proof.
+  fix IH 1. intros [k v p l c|k cs] H.
+  - apply g_nil. exact H.
+  - rewrite meas_node. simpl in H. revert H. induction cs as [|c r IHr]; intros H; [reflexivity|].
+    apply app_eq_nil in H as [H1 H2]. rewrite meass_cons, (IH c H1), (IHr H2). reflexivity.
+Qed.
+
 Variable G : gram.
 Variable TR : list (N * list (label * plan)).
 
 (* ---------- _create_params only regroups ---------- *)
-Lemma split_params_text : forall cs cur, tcodes (split_params cs cur) = tcodes cur ++ tcodes cs.
+Lemma split_params_text : forall cs cur, meass (split_params cs cur) = meass cur ++ meass cs.
 Proof.
-  assert (FL: forall pc, tcodes (match pc with
+  assert (FL: forall pc, meass (match pc with
                                  | [] => []
                                  | p0 :: rest => if (is_op p0 star && match rest with [] => true | p1 :: _ => is_op p1 comma end) || is_op p0 slash
-                                                 then pc else [Node KParam pc] end) = tcodes pc).
-  { intros [|p0 rest]; [reflexivity|]. destruct ((is_op p0 star && _) || is_op p0 slash); [reflexivity|]. rewrite tcodes_one, tcode_node. reflexivity. }
+                                                 then pc else [Node KParam pc] end) = meass pc).
+  { intros [|p0 rest]; [reflexivity|]. destruct ((is_op p0 star && _) || is_op p0 slash); [reflexivity|]. rewrite meass_one, meas_node. reflexivity. }
   induction cs as [|c t IH]; intros cur; cbn [split_params].
-  - rewrite FL. unfold tcodes at 3. simpl. rewrite app_nil_r. reflexivity.
+  - rewrite FL. unfold meass at 3. simpl. rewrite app_nil_r. reflexivity.
   - destruct (is_op c comma).
-    + rewrite tcodes_app, FL, IH, tcodes_app, tcodes_one. unfold tcodes at 4. simpl. rewrite <- !app_assoc. reflexivity.
-    + rewrite IH, tcodes_app, tcodes_one. rewrite <- !app_assoc. reflexivity.
+    + rewrite meass_app, FL, IH, meass_app, meass_one. unfold meass at 4. simpl. rewrite <- !app_assoc. reflexivity.
+    + rewrite IH, meass_app, meass_one. rewrite <- !app_assoc. reflexivity.
 Qed.
 
-Lemma create_params_text l np : create_params G l = POk np -> tcodes np = tcodes l.
+Lemma create_params_text l np : create_params G l = POk np -> meass np = meass l.
 Proof.
   unfold create_params. destruct l as [|first rest]; [intros H; inversion H; reflexivity|].
   destruct rest as [|x rest]; [|discriminate]. cbn [is_nil_t negb].
   destruct (is_name first || match node_rule first with Some r => r =? r_fpdef G | None => false end).
-  { intros H; inversion H. rewrite !tcodes_one, tcode_node, tcodes_one. reflexivity. }
+  { intros H; inversion H. rewrite !meass_one, meas_node, meass_one. reflexivity. }
   destruct (is_op first star); [intros H; inversion H; reflexivity|].
-  assert (K: forall cs, tcodes cs = tcode first -> forall np0, POk (split_params cs []) = POk np0 -> tcodes np0 = tcodes [first]).
-  { intros cs E np0 H. inversion H. rewrite split_params_text, tcodes_one, E. reflexivity. }
+  assert (K: forall cs, meass cs = meas first -> forall np0, POk (split_params cs []) = POk np0 -> meass np0 = meass [first]).
+  { intros cs E np0 H. inversion H. rewrite split_params_text, meass_one, E. reflexivity. }
   destruct first as [k v p l c|k cs].
   - cbn [node_rule]. discriminate.
   - destruct k as [r| |]; cbn [node_rule].
     + destruct (r =? r_tfpdef G); intros H.
-      * eapply K; [|exact H]. apply tcodes_one.
-      * eapply K; [|exact H]. symmetry. apply tcode_node.
-    + intros H. eapply K; [|exact H]. symmetry. apply tcode_node.
-    + intros H. eapply K; [|exact H]. symmetry. apply tcode_node.
+      * eapply K; [|exact H]. apply meass_one.
+      * eapply K; [|exact H]. symmetry. apply meas_node.
+    + intros H. eapply K; [|exact H]. symmetry. apply meas_node.
+    + intros H. eapply K; [|exact H]. symmetry. apply meas_node.
 Qed.
 
 Lemma rev_head_last {A} (l : list A) x r : rev l = x :: r -> l = rev r ++ [x].
 Proof. intros H. apply (f_equal (@rev A)) in H. rewrite rev_involutive in H. simpl in H. exact H. Qed.
 
-Lemma regroup_func_text : forall cs cs', regroup_func G cs = POk cs' -> tcodes cs' = tcodes cs.
+Lemma regroup_func_text : forall cs cs', regroup_func G cs = POk cs' -> meass cs' = meass cs.
 Proof.
   induction cs as [|c t IH]; intros cs' H; simpl in H; [discriminate|].
   destruct c as [k v p l c0|k pcs].
-  - destruct (regroup_func G t) as [t'|] eqn:E; [|discriminate]. inversion H; subst. rewrite !tcodes_cons, (IH t' eq_refl). reflexivity.
+  - destruct (regroup_func G t) as [t'|] eqn:E; [|discriminate]. inversion H; subst. rewrite !meass_cons, (IH t' eq_refl). reflexivity.
   - destruct k as [pr| |].
     + destruct (pr =? r_parameters G).
       * destruct (existsb is_param (removelast (tl pcs))); [inversion H; reflexivity|].
         destruct (create_params G (removelast (tl pcs))) as [np|] eqn:CP; [|discriminate].
         destruct pcs as [|p0 [|p1 pr2]]; [discriminate|discriminate|].
         destruct (rev (p0 :: p1 :: pr2)) as [|pl rr] eqn:RV; [discriminate|]. inversion H; subst. clear H.
-        rewrite !tcodes_cons, !tcode_node. f_equal.
+        rewrite !meass_cons, !meas_node. f_equal.
         apply create_params_text in CP.
         (* p0 :: p1 :: pr2 = p0 :: inner ++ [pl] *)
         assert (TL: p1 :: pr2 = removelast (p1 :: pr2) ++ [pl]).
@@ -79,39 +106,39 @@ Proof.
           apply rev_head_last in RV. destruct (rev rr) as [|y yr] eqn:RR.
           - simpl in RV. discriminate.
           - simpl in RV. inversion RV; subst. rewrite H1. rewrite last_last. reflexivity. }
-        cbn [tl] in CP. rewrite (tcodes_cons p0 (np ++ [pl])), (tcodes_cons p0 (p1 :: pr2)). f_equal.
-        transitivity (tcodes (removelast (p1 :: pr2) ++ [pl])); [|rewrite <- TL; reflexivity].
-        rewrite !tcodes_app, CP. reflexivity.
-      * destruct (regroup_func G t) as [t'|] eqn:E; [|discriminate]. inversion H; subst. rewrite !tcodes_cons, (IH t' eq_refl). reflexivity.
-    + destruct (regroup_func G t) as [t'|] eqn:E; [|discriminate]. inversion H; subst. rewrite !tcodes_cons, (IH t' eq_refl). reflexivity.
-    + destruct (regroup_func G t) as [t'|] eqn:E; [|discriminate]. inversion H; subst. rewrite !tcodes_cons, (IH t' eq_refl). reflexivity.
+        cbn [tl] in CP. rewrite (meass_cons p0 (np ++ [pl])), (meass_cons p0 (p1 :: pr2)). f_equal.
+        transitivity (meass (removelast (p1 :: pr2) ++ [pl])); [|rewrite <- TL; reflexivity].
+        rewrite !meass_app, CP. reflexivity.
+      * destruct (regroup_func G t) as [t'|] eqn:E; [|discriminate]. inversion H; subst. rewrite !meass_cons, (IH t' eq_refl). reflexivity.
+    + destruct (regroup_func G t) as [t'|] eqn:E; [|discriminate]. inversion H; subst. rewrite !meass_cons, (IH t' eq_refl). reflexivity.
+    + destruct (regroup_func G t) as [t'|] eqn:E; [|discriminate]. inversion H; subst. rewrite !meass_cons, (IH t' eq_refl). reflexivity.
 Qed.
 
-Lemma no_text_nil t : no_text t = true -> tcode t = [].
-Proof. unfold no_text. destruct (tcode t); [reflexivity|discriminate]. Qed.
+Lemma no_text_nil t : no_text t = true -> meas t = [].
+Proof. unfold no_text. intros H. apply tcode_nil_meas. destruct (tcode t); [reflexivity|discriminate]. Qed.
 
-Lemma convert_node_text r ns t : convert_node G r ns = POk t -> tcode t = tcodes ns.
+Lemma convert_node_text r ns t : convert_node G r ns = POk t -> meas t = meass ns.
 Proof.
   unfold convert_node. destruct (r =? r_suite G).
-  - destruct ns as [|c0 [|c1 rest]]; [discriminate|intros H; inversion H; rewrite tcode_node; reflexivity|].
+  - destruct ns as [|c0 [|c1 rest]]; [discriminate|intros H; inversion H; rewrite meas_node; reflexivity|].
     destruct (no_text c1 && match rev rest with [] => true | cl :: _ => no_text cl end) eqn:NT; [|discriminate].
-    apply andb_true_iff in NT as [N1 N2]. intros H; inversion H; subst. rewrite tcode_node, !tcodes_cons, (no_text_nil _ N1). simpl. f_equal.
+    apply andb_true_iff in NT as [N1 N2]. intros H; inversion H; subst. rewrite meas_node, !meass_cons, (no_text_nil _ N1). simpl. f_equal.
     destruct (rev rest) as [|cl rr] eqn:RV.
     + apply (f_equal (@rev tree)) in RV. rewrite rev_involutive in RV. subst. reflexivity.
-    + apply rev_head_last in RV. subst rest. rewrite removelast_last, tcodes_app, tcodes_one, (no_text_nil _ N2), app_nil_r. reflexivity.
+    + apply rev_head_last in RV. subst rest. rewrite removelast_last, meass_app, meass_one, (no_text_nil _ N2), app_nil_r. reflexivity.
   - destruct (r =? r_funcdef G).
-    + destruct (regroup_func G ns) as [cs|] eqn:E; [|discriminate]. intros H; inversion H. rewrite tcode_node. apply regroup_func_text. exact E.
-    + destruct ((r =? r_lambdef G) || (r =? r_lambdef_nocond G)); [|intros H; inversion H; apply tcode_node].
+    + destruct (regroup_func G ns) as [cs|] eqn:E; [|discriminate]. intros H; inversion H. rewrite meas_node. apply regroup_func_text. exact E.
+    + destruct ((r =? r_lambdef G) || (r =? r_lambdef_nocond G)); [|intros H; inversion H; apply meas_node].
       destruct ns as [|kw rest]; [discriminate|].
-      destruct (existsb is_param (firstn (length rest - 2) rest)); [intros H; inversion H; apply tcode_node|].
+      destruct (existsb is_param (firstn (length rest - 2) rest)); [intros H; inversion H; apply meas_node|].
       destruct (create_params G (firstn (length rest - 2) rest)) as [np|] eqn:CP; [|discriminate].
-      intros H; inversion H. rewrite tcode_node, !tcodes_cons, tcodes_app. f_equal.
-      apply create_params_text in CP. rewrite CP, <- tcodes_app, firstn_skipn. reflexivity.
+      intros H; inversion H. rewrite meas_node, !meass_cons, meass_app. f_equal.
+      apply create_params_text in CP. rewrite CP, <- meass_app, firstn_skipn. reflexivity.
 Qed.
 
 (* ---------- the text on the stack ---------- *)
-Definition frame_code (fr : frame) : str := tcodes (f_nodes fr).
-Definition stack_code (s : list frame) : str := concat (map frame_code (rev s)).   (* bottom frame first *)
+Definition frame_code (fr : frame) : list XT := meass (f_nodes fr).
+Definition stack_code (s : list frame) : list XT := concat (map frame_code (rev s)).   (* bottom frame first *)
 
 Lemma stack_code_cons fr s : stack_code (fr :: s) = stack_code s ++ frame_code fr.
 Proof. unfold stack_code. simpl. rewrite map_app, concat_app. simpl. rewrite app_nil_r. reflexivity. Qed.
@@ -119,12 +146,12 @@ Proof. unfold stack_code. simpl. rewrite map_app, concat_app. simpl. rewrite app
 Lemma pop_text s s' : pop G s = POk s' -> stack_code s' = stack_code s.
 Proof.
   unfold pop. destruct s as [|tos [|below rest]]; [discriminate|discriminate|].
-  assert (K: forall nd, tcode nd = tcodes (f_nodes tos) ->
+  assert (K: forall nd, meas nd = meass (f_nodes tos) ->
              stack_code (mkFr (f_dfa below) (f_nodes below ++ [nd]) :: rest) = stack_code (tos :: below :: rest)).
-  { intros nd E. rewrite !stack_code_cons. unfold frame_code. cbn [f_nodes]. rewrite tcodes_app, tcodes_one, E, <- app_assoc. reflexivity. }
+  { intros nd E. rewrite !stack_code_cons. unfold frame_code. cbn [f_nodes]. rewrite meass_app, meass_one, E, <- app_assoc. reflexivity. }
   destruct (f_nodes tos) as [|x [|y r]] eqn:FN.
   - destruct (convert_node G (rule_of G (f_dfa tos)) []) as [nd|] eqn:CV; [|discriminate]. intros H; inversion H. apply K. eapply convert_node_text. exact CV.
-  - intros H; inversion H. apply K. rewrite tcodes_one. reflexivity.
+  - intros H; inversion H. apply K. rewrite meass_one. reflexivity.
   - destruct (convert_node G (rule_of G (f_dfa tos)) (x :: y :: r)) as [nd|] eqn:CV; [|discriminate]. intros H; inversion H. apply K. eapply convert_node_text. exact CV.
 Qed.
 
@@ -139,19 +166,19 @@ Proof.
   specialize (IH ltac:(discriminate)). simpl in *. lia.
 Qed.
 
-Lemma flat_nodes_text (l : list frame) : tcodes (flat_map f_nodes l) = concat (map frame_code l).
-Proof. induction l as [|fr r IH]; [reflexivity|]. simpl. rewrite tcodes_app, IH. reflexivity. Qed.
+Lemma flat_nodes_text (l : list frame) : meass (flat_map f_nodes l) = concat (map frame_code l).
+Proof. induction l as [|fr r IH]; [reflexivity|]. simpl. rewrite meass_app, IH. reflexivity. Qed.
 
 Lemma stack_removal_text s k s1 b : (k < length s)%nat -> stack_removal s k = (s1, b) -> stack_code s1 = stack_code s.
 Proof.
   intros L H. unfold stack_removal in H.
   rewrite <- (firstn_skipn k s) at 1. rewrite stack_code_app.
-  assert (RC: stack_code (firstn k s) = tcodes (flat_map f_nodes (rev (firstn k s)))) by (rewrite flat_nodes_text; reflexivity).
+  assert (RC: stack_code (firstn k s) = meass (flat_map f_nodes (rev (firstn k s)))) by (rewrite flat_nodes_text; reflexivity).
   destruct (flat_map f_nodes (rev (firstn k s))) as [|x xs] eqn:AN.
-  - inversion H; subst. rewrite RC. unfold tcodes. simpl. rewrite app_nil_r. reflexivity.
+  - inversion H; subst. rewrite RC. unfold meass. simpl. rewrite app_nil_r. reflexivity.
   - destruct (skipn k s) as [|below r] eqn:SK.
     + exfalso. assert (length (skipn k s) = 0%nat) by (rewrite SK; reflexivity). rewrite skipn_length in H0. lia.
-    + inversion H; subst. rewrite RC, !stack_code_cons. unfold frame_code. cbn [f_nodes]. rewrite tcodes_app, tcodes_one, tcode_node, <- app_assoc. reflexivity.
+    + inversion H; subst. rewrite RC, !stack_code_cons. unfold frame_code. cbn [f_nodes]. rewrite meass_app, meass_one, meas_node, <- app_assoc. reflexivity.
 Qed.
 
 (* ---------- one token ---------- *)
@@ -159,18 +186,18 @@ Lemma fold_push_text ch : forall base top r,
   fold_left (fun st q => mkFr q [] :: st) ch base = top :: r -> stack_code (top :: r) = stack_code base.
 Proof.
   induction ch as [|q ch IH]; intros base top r H; simpl in H; [subst; reflexivity|].
-  rewrite (IH _ _ _ H), stack_code_cons. unfold frame_code. simpl. unfold tcodes. simpl. rewrite app_nil_r. reflexivity.
+  rewrite (IH _ _ _ H), stack_code_cons. unfold frame_code. simpl. unfold meass. simpl. rewrite app_nil_r. reflexivity.
 Qed.
 
 Lemma add_token_text : forall fuel recover p t p',
-  add_token G TR fuel recover p t = POk p' -> stack_code (stack p') = stack_code (stack p) ++ emit1 t.
+  add_token G TR fuel recover p t = POk p' -> stack_code (stack p') = stack_code (stack p) ++ mtok t.
 Proof.
   induction fuel as [|f IH]; intros recover p t p' H; [discriminate|]. cbn [add_token] in H.
   destruct (stack p) as [|tos rest] eqn:S; [discriminate|].
   destruct (trans TR (f_dfa tos) (token_label G t)) as [pl|].
   - destruct (fold_left (fun st q => mkFr q [] :: st) (p_pushes pl) (mkFr (p_next pl) (f_nodes tos) :: rest)) as [|top r] eqn:FL; [discriminate|].
     inversion H; subst. cbn [stack]. pose proof (fold_push_text _ _ _ _ FL) as E.
-    rewrite !stack_code_cons in *. unfold frame_code in *. cbn [f_nodes] in *. rewrite tcodes_app, tcodes_one.
+    rewrite !stack_code_cons in *. unfold frame_code in *. cbn [f_nodes] in *. rewrite meass_app, meass_one.
     rewrite app_assoc, E. unfold convert_leaf, emit1. simpl. reflexivity.
   - destruct (final G (f_dfa tos)).
     + destruct (pop G (tos :: rest)) as [s'|] eqn:P; [|discriminate].
@@ -189,11 +216,11 @@ Proof.
         destruct (stack_removal (tos :: rest) (current_suite G (tos :: rest))) as [s1 removed] eqn:SR.
         pose proof (stack_removal_text _ _ _ _ LT SR) as ST.
         match type of H with context [match ?af with POk _ => _ | PErr _ => _ end] => destruct af as [p2|] eqn:AF; [|discriminate] end.
-        assert (E2: stack_code (stack p2) = stack_code (tos :: rest) ++ emit1 t).
+        assert (E2: stack_code (stack p2) = stack_code (tos :: rest) ++ mtok t).
         { destruct removed.
           - apply IH in AF. cbn [stack] in AF. rewrite AF, ST. reflexivity.
           - destruct s1 as [|top r]; [discriminate|]. inversion AF; subst p2. cbn [stack].
-            rewrite <- ST, !stack_code_cons. unfold frame_code. cbn [f_nodes]. rewrite tcodes_app, tcodes_one. simpl. rewrite <- app_assoc. reflexivity. }
+            rewrite <- ST, !stack_code_cons. unfold frame_code. cbn [f_nodes]. rewrite meass_app, meass_one. simpl. rewrite <- app_assoc. reflexivity. }
         destruct (stack p2) as [|top r] eqn:S2; [discriminate|].
         destruct (rule_of G (f_dfa top) =? r_suite G).
         -- destruct (arc_nt G (f_dfa top) (r_stmt G)); inversion H; subst; cbn [stack]; [|rewrite S2; exact E2].
@@ -207,12 +234,12 @@ Definition zero_width_blocks (toks : list Token) : Prop :=
 
 Lemma feed_text : forall toks recover p p',
   feed G TR recover p toks = POk p' -> zero_width_blocks toks ->
-  stack_code (stack p') = stack_code (stack p) ++ emit toks.
+  stack_code (stack p') = stack_code (stack p) ++ mtoks toks.
 Proof.
   induction toks as [|t toks IH]; intros recover p p' H Z; cbn [feed] in H.
-  - inversion H; subst. rewrite emit_nil, app_nil_r. reflexivity.
+  - inversion H; subst. rewrite mtoks_nil, app_nil_r. reflexivity.
   - assert (Z': zero_width_blocks toks) by (intros x I; apply Z; right; exact I).
-    assert (EM: emit (t :: toks) = emit1 t ++ emit toks) by reflexivity.
+    assert (EM: mtoks (t :: toks) = mtok t ++ mtoks toks) by reflexivity.
     match type of H with context [match ?st with Some _ => _ | None => _ end] => destruct st as [p1|] eqn:STEP end.
     + assert (SP: stack p1 = stack p).
       { destruct recover; [|inversion STEP; reflexivity].
@@ -223,10 +250,10 @@ Proof.
     + (* a DEDENT swallowed by _recovery_tokenize: it carries no text *)
       assert (TD: ty t = DEDENT).
       { destruct recover; [|discriminate]. destruct (ty t); try discriminate. reflexivity. }
-      rewrite (IH _ _ _ H Z'). cbn [stack]. rewrite EM, (Z t (or_introl eq_refl) (or_intror TD)). reflexivity.
+      rewrite (IH _ _ _ H Z'). cbn [stack]. rewrite EM. unfold mtok. rewrite (g_nil _ _ _ _ (Z t (or_introl eq_refl) (or_intror TD))). reflexivity.
 Qed.
 
-Lemma finish_text : forall fuel s t, finish G fuel s = POk t -> tcode t = stack_code s.
+Lemma finish_text : forall fuel s t, finish G fuel s = POk t -> meas t = stack_code s.
 Proof.
   induction fuel as [|f IH]; intros s t H; [discriminate|]. cbn [finish] in H.
   destruct s as [|tos rest]; [discriminate|]. destruct (negb (final G (f_dfa tos))); [discriminate|].
@@ -235,13 +262,47 @@ Proof.
   - destruct (pop G (tos :: below :: rest)) as [s'|] eqn:P; [|discriminate]. rewrite (IH _ _ H). apply pop_text. exact P.
 Qed.
 
-Theorem parse_keeps_text : forall recover start toks t,
-  parse G TR recover start toks = POk t -> zero_width_blocks toks -> tcode t = emit toks.
+Theorem parse_keeps : forall recover start toks t,
+  parse G TR recover start toks = POk t -> zero_width_blocks toks -> meas t = mtoks toks.
 Proof.
   intros recover start toks t H Z. unfold parse in H.
   destruct (assocN start (g_start G)) as [q0|]; [|discriminate].
   destruct (feed G TR recover (mkP [mkFr q0 []] [] 0%Z) toks) as [p|] eqn:F; [|discriminate].
   apply finish_text in H. rewrite H, (feed_text _ _ _ _ F Z). reflexivity.
 Qed.
-End Keeps.
+End Meas.
+
+
+(* ---------- instance 1: the code of the tree (C01) ---------- *)
+Definition tcodes (l : list tree) : str := concat (map tcode l).
+Lemma tcode_node k cs : tcode (Node k cs) = tcodes cs.
+Proof. unfold tcodes. simpl. induction cs as [|c r IH]; simpl; [reflexivity|]. rewrite IH. reflexivity. Qed.
+Definition g_code (v p : str) (l c : N) : str := p ++ v.
+Lemma meas_code : forall t, meas N g_code t = tcode t.
+Proof.
+  fix IH 1. intros [k v p l c|k cs]; [reflexivity|]. simpl. induction cs as [|c r IHr]; [reflexivity|]. rewrite (IH c), IHr. reflexivity.
+Qed.
+Lemma mtoks_code toks : mtoks N g_code toks = emit toks.
+Proof. reflexivity. Qed.
+
+Theorem parse_keeps_text : forall G TR recover start toks t,
+  parse G TR recover start toks = POk t -> zero_width_blocks toks -> tcode t = emit toks.
+Proof.
+  intros G TR recover start toks t H Z. rewrite <- meas_code, <- mtoks_code.
+  eapply parse_keeps; [intros v p l c E; exact E|exact H|exact Z].
+Qed.
 Print Assumptions parse_keeps_text.
+
+(* ---------- instance 2: the text-carrying leaves with their positions (C03) ---------- *)
+Record linfo := mkLI { li_value : str; li_prefix : str; li_line : N; li_col : N }.
+Definition g_info (v p : str) (l c : N) : list linfo := match p ++ v with [] => [] | _ => [mkLI v p l c] end.
+Definition text_leaves (t : tree) : list linfo := meas linfo g_info t.
+Definition text_tokens (toks : list Token) : list linfo := mtoks linfo g_info toks.
+
+Theorem parse_keeps_leaves : forall G TR recover start toks t,
+  parse G TR recover start toks = POk t -> zero_width_blocks toks -> text_leaves t = text_tokens toks.
+Proof.
+  intros G TR recover start toks t H Z. unfold text_leaves, text_tokens.
+  eapply parse_keeps; [intros v p l c E; unfold g_info; rewrite E; reflexivity|exact H|exact Z].
+Qed.
+Print Assumptions parse_keeps_leaves.
